@@ -827,7 +827,7 @@ def concat_model(eng, ctx, cp, m, v, args):
         if k >= 1:
             return OPT_SOME(Tup([Ref(v.elems, 0), Ref(Cell(VecV(v.elems[1:], None, kind)))]))
         return _opaque_read("split_first") if total_ge(1) else OPT_NONE()
-    if m in ("last", "split_last", "ends_with", "strip_suffix", "iter", "to_vec", "contains", "reverse"):
+    if m in ("last", "split_last", "ends_with", "strip_suffix", "iter", "to_vec", "contains", "reverse") and k < len(v.elems):
         _opaque_read(m)
     if m == "get" and isinstance(args[1], Sc):
         j = conc_index(args[1], "get")
@@ -1082,6 +1082,9 @@ def vec_model(eng, ctx, cp, self_ty, trait, m, args):
             if len(o.elems) > len(v.elems):
                 return mk_bool(False)
             return mk_bool(bytes_eq(ctx, VecV(v.elems[:len(o.elems)], None, "vec"), o))
+    if v.elems is not None and v.kind not in ("str", "string") and m in ("split_first", "strip_prefix", "split_at",
+                                                                         "split_at_checked"):
+        return concat_model(eng, ctx, cp, m, v, args)      # byte prefix = the whole (concrete-length) slice
     return NO_MODEL
 
 
